@@ -482,6 +482,62 @@ theorem add_insert_concat_model :
 example : ∃ st', runM (insertAt 1 2 (.bool true) 1) { lists := #[[], [.null, .null]] } = (.ok (.list 2 3), st') := ⟨_, rfl⟩
 example : ∃ r st', runM (concatB [.list 1 1, .list 1 1]) { lists := #[[], [.null]] } = (.ok (.list r 2), st') := ⟨_, _, rfl⟩
 
+/-! ### the list / finite-map yardstick (independent of slices) and where the code leaves it
+
+`Spec`: lists are values `List Val`, `add`/`del`/`concat` RETURN a list and change nothing else; maps are finite maps.
+The code's results refine `Spec` (`builtins_refine_spec`); what the code does to OTHER list values — the argument
+itself, earlier results — is Go slice aliasing and deviates from `Spec` (`add_del_alias_deviation`: witnesses).  The
+correspondence run compares with the code as it is; `fixes/C05-add-del-aliasing.patch` makes add / del copy. -/
+namespace Spec
+def len (l : List Val) : Nat := l.length
+def add (l : List Val) (v : Val) : List Val := l ++ [v]
+def insert (l : List Val) (v : Val) (i : Nat) : List Val := l.take i ++ [v] ++ l.drop i
+def del (l : List Val) (i : Nat) : List Val := l.eraseIdx i
+def concat (ls : List (List Val)) : List Val := ls.flatten
+def delKey (m : List (Val × Val)) (k : Val) : List (Val × Val) := m.filter fun p => !(keyEq p.1 k)
+end Spec
+
+/-- the RESULT of every list builtin is the `Spec` result (for slices with len ≤ capacity, valid indices) -/
+theorem builtins_refine_spec (r l : Nat) (st st' : St) (res : Val) (hr : r < st.lists.size) (hl : l ≤ (st.backing r).length) :
+    (∀ v, runM (appendVals r l [v]) st = (.ok res, st') →
+      ∃ r', res = .list r' (l + 1) ∧ st'.elems r' (l + 1) = Spec.add (st.elems r l) v) ∧
+    (∀ v i, i ≤ l → runM (insertAt r l v i) st = (.ok res, st') →
+      ∃ r', res = .list r' (l + 1) ∧ st'.elems r' (l + 1) = Spec.insert (st.elems r l) v i) ∧
+    (∀ i, i < l → ∃ s2, runM (delAt r l i) st = (.ok (.list r (l - 1)), s2) ∧ s2.elems r (l - 1) = Spec.del (st.elems r l) i) := by
+  refine ⟨?_, ?_, ?_⟩
+  · intro v h
+    obtain ⟨r', e1, e2, _⟩ := append_model r l [v] st st' res hr hl h
+    exact ⟨r', e1, e2⟩
+  · intro v i hi h
+    obtain ⟨r', e1, e2, _⟩ := insertAt_model r l i v st st' res hr hl hi h
+    exact ⟨r', e1, e2⟩
+  · intro i hi
+    obtain ⟨s2, e1, e2, _⟩ := delAt_model r l i st hr hl hi
+    exact ⟨s2, e1, e2⟩
+
+/-- … and a plain append changes no OTHER list value as long as no alias of the backing array is longer than the
+    appended slice ("no alias beyond len") — in particular never when it reallocates -/
+theorem append_refines_when_unaliased (r l : Nat) (v : Val) (st st' : St) (res : Val) (hr : r < st.lists.size)
+    (hl : l ≤ (st.backing r).length) (h : runM (appendVals r l [v]) st = (.ok res, st')) (r2 l2 : Nat)
+    (hal : r2 = r → l2 ≤ l) (hr2 : r2 < st.lists.size) : st'.elems r2 l2 = st.elems r2 l2 := by
+  obtain ⟨r', _, _, hoth, hcase⟩ := append_model r l [v] st st' res hr hl h
+  rcases hcase with ⟨e, _, hk⟩ | ⟨e, hk⟩
+  · by_cases h2 : r2 = r
+    · subst h2; exact hk l2 (hal rfl)
+    · simp only [St.elems, hoth r2 (by rw [e]; exact h2)]
+  · simp only [St.elems, hoth r2 (by rw [e]; exact Nat.ne_of_lt hr2)]
+
+/-- Deviations from `Spec` (the code as it is; `a` = the slice `.list 1 3` over an array of capacity 4 holding 1,2,3):
+    `b := add(a, 4); c := add(a, 5)` rewrites `b` to [1,2,3,5]; `add(a, 9, 0)` turns `a` itself into [9,1,2];
+    `del(a, 0)` turns `a` itself into [2,3,3]. -/
+theorem add_del_alias_deviation :
+    let st : St := { lists := #[[], [.num 1, .num 2, .num 3, .null]] }
+    (∃ s1 s2, runM (appendVals 1 3 [.num 4]) st = (.ok (.list 1 4), s1) ∧ runM (appendVals 1 3 [.num 5]) s1 = (.ok (.list 1 4), s2) ∧
+      s1.elems 1 4 = [.num 1, .num 2, .num 3, .num 4] ∧ s2.elems 1 4 = [.num 1, .num 2, .num 3, .num 5]) ∧
+    (∃ s1, runM (insertAt 1 3 (.num 9) 0) st = (.ok (.list 1 4), s1) ∧ s1.elems 1 3 = [.num 9, .num 1, .num 2]) ∧
+    (∃ s1, runM (delAt 1 3 0) st = (.ok (.list 1 2), s1) ∧ s1.elems 1 3 = [.num 2, .num 3, .num 3]) :=
+  ⟨⟨_, _, rfl, rfl, rfl, rfl⟩, ⟨_, rfl, rfl⟩, ⟨_, rfl, rfl⟩⟩
+
 /-- the loop over the "super" list, in list order: a map element is added to the object by `rec` (its init is
     appended to the collected list, its error replaces the error variable), any other element is skipped -/
 theorem superLoop_order (rec : Nat → M (Val × Option Sig)) (sr : Nat) (rest : List Val) (err : Option Sig) (acc : List Val) :
